@@ -4,6 +4,7 @@ From Coq Require Import List ZArith QArith Qabs Bool Lia.
 From PV Require Import lib.Sx lib.Str lib.Result model.Geometry model.Positioning model.DfxpTree spec.SpecGeom spec.SpecPos.
 From PV Require Import proofs.GeomStr proofs.GeomEq proofs.GeomPrint proofs.GeomFacts proofs.PosFacts proofs.Pos12Facts.
 From PV Require Import proofs.DfxpTreeFacts.
+From PV Require Export spec.SpecPos12Regions.
 Import ListNotations.
 Open Scope Z_scope.
 
@@ -94,9 +95,7 @@ Proof.
   rewrite IH, <- seq_shift, map_map. apply map_ext. intros n. f_equal. lia.
 Qed.
 
-(* created regions: the layouts of the caption set that have any of origin / extent / padding / alignment, one per class
-   of equal layouts, the default region's class excluded *)
-Definition created_keys (ls : list (option layout)) : list layout := filter has_region (collect_regions ls).
+(* created_keys (statement-level definition): spec/SpecPos12Regions.v *)
 
 Theorem region_map_keys : forall ls, map fst (region_map ls) = created_keys ls ++ [dfxp_default_region].
 Proof. intros ls. unfold region_map. rewrite map_app, number_regions_keys. reflexivity. Qed.
